@@ -108,6 +108,13 @@ func pointerLike(t types.Type) bool {
 
 // root follows address / slice derivations back to the object a value points into.
 func root(v ssa.Value) ssa.Value {
+	r, _ := rootD(v)
+	return r
+}
+
+// rootD: as root, and whether a pointer / slice / map was loaded from memory on the way (so that the pointee is not the
+// holder's own storage)
+func rootD(v ssa.Value) (ssa.Value, bool) {
 	deref := false // a pointer / slice / map was loaded from memory on the way: the pointee is not the holder's own storage
 	for i := 0; i < 64; i++ {
 		switch x := v.(type) {
@@ -115,10 +122,10 @@ func root(v ssa.Value) ssa.Value {
 			// a reference loaded out of the local copy of a by-value struct parameter still points into the caller's memory
 			if deref {
 				if p := spilledParam(x); p != nil {
-					return p
+					return p, deref
 				}
 			}
-			return v
+			return v, deref
 		case *ssa.Field:
 			if pointerLike(x.Type()) {
 				deref = true
@@ -146,7 +153,7 @@ func root(v ssa.Value) ssa.Value {
 				}
 				v = x.X
 			} else {
-				return v
+				return v, deref
 			}
 		case *ssa.Extract:
 			v = x.Tuple
@@ -160,7 +167,7 @@ func root(v ssa.Value) ssa.Value {
 				}
 			}
 			if best == v {
-				return v
+				return v, deref
 			}
 			v = best
 		case *ssa.Call:
@@ -189,12 +196,12 @@ func root(v ssa.Value) ssa.Value {
 					}
 				}
 			}
-			return v
+			return v, deref
 		default:
-			return v
+			return v, deref
 		}
 	}
-	return v
+	return v, deref
 }
 
 func root2(v ssa.Value) ssa.Value { return rootNoPhi(v) }
@@ -1012,6 +1019,16 @@ func analyse(cfgName string, env []string, patterns []string, wantPkgs map[strin
 							valueUse[g] = true
 						}
 					}
+				} else if mc, ok := ins.(*ssa.MakeClosure); ok {
+					// a function literal escapes only if the closure VALUE is used for something other than being called
+					if g, ok := mc.Fn.(*ssa.Function); ok && mc.Referrers() != nil {
+						for _, ref := range *mc.Referrers() {
+							ci, isCall := ref.(ssa.CallInstruction)
+							if !isCall || ci.Common().Value != ssa.Value(mc) {
+								valueUse[g] = true
+							}
+						}
+					}
 				} else {
 					for _, op := range ins.Operands(nil) {
 						if op != nil && *op != nil {
@@ -1027,9 +1044,50 @@ func analyse(cfgName string, env []string, patterns []string, wantPkgs map[strin
 	for k, v := range valueUse {
 		vcValueUse[k] = v
 	}
+	// initOnly(f): f runs only while the package is being initialised (it is `init`, or an internal function / literal all
+	// of whose callers are).  A panic there would abort every program that imports the library, including the existing
+	// tests and this check's own harness, so it is not an input-dependent panic site.
+	initMemo := map[*ssa.Function]int{}
+	var initOnly func(f *ssa.Function, depth int) bool
+	initOnly = func(f *ssa.Function, depth int) bool {
+		if f == nil || depth > 8 {
+			return false
+		}
+		if f.Name() == "init" || strings.HasPrefix(f.Name(), "init#") {
+			return true
+		}
+		if v, ok := initMemo[f]; ok {
+			return v == 1
+		}
+		initMemo[f] = 0
+		res := false
+		if f.Parent() != nil {
+			// a function literal: runs during initialisation only if it is created and called there and not kept
+			res = initOnly(f.Parent(), depth+1) && len(callers[f]) > 0 && !valueUse[f]
+			if res {
+				for _, c := range callers[f] {
+					if !initOnly(callerFn[c], depth+1) {
+						res = false
+					}
+				}
+			}
+		} else if !token.IsExported(f.Name()) && !valueUse[f] && len(callers[f]) > 0 {
+			res = true
+			for _, c := range callers[f] {
+				if !initOnly(callerFn[c], depth+1) {
+					res = false
+				}
+			}
+		}
+		if res {
+			initMemo[f] = 1
+		}
+		return res
+	}
 	// benignParam(f, i): f is an unexported, non-escaping function and at EVERY call site the i-th argument points into
 	// local, fresh or pooled memory (or into a parameter of the caller that is benign in turn): a write through that
 	// parameter cannot touch an exported function's argument or a global.
+	var benignRootFn func(f *ssa.Function, v ssa.Value, depth int) bool
 	var benignParam func(f *ssa.Function, i int, depth int) bool
 	benignParam = func(f *ssa.Function, i int, depth int) bool {
 		if depth > 6 || f.Parent() != nil || valueUse[f] || token.IsExported(f.Name()) || len(callers[f]) == 0 {
@@ -1039,29 +1097,82 @@ func analyse(cfgName string, env []string, patterns []string, wantPkgs map[strin
 			if i >= len(c.Args) {
 				return false
 			}
-			r := root(c.Args[i])
-			k := rootKind(r)
-			if benignKind(k) {
+			if benignRootFn != nil && benignRootFn(callerFn[c], c.Args[i], depth+1) {
 				continue
-			}
-			if p, ok := r.(*ssa.Parameter); ok {
-				g := callerFn[c]
-				if ix := paramIndex(g, p); ix >= 0 && benignParam(g, ix, depth+1) {
-					continue
-				}
 			}
 			return false
 		}
 		return true
 	}
-	rootedAtBenignParam := func(f *ssa.Function, v ssa.Value) bool {
-		if p, ok := root(v).(*ssa.Parameter); ok {
-			if ix := paramIndex(f, p); ix >= 0 {
-				return benignParam(f, ix, 0)
+	// benignRoot(f, v): the memory v points into is local, fresh or pooled — directly, through a parameter that is benign
+	// at every call site, or through a variable captured by a function literal (range-over-func bodies, deferred closures)
+	// whose captured slot in the enclosing function holds only such memory.
+	var benignRoot func(f *ssa.Function, v ssa.Value, depth int) bool
+	benignRoot = func(f *ssa.Function, v ssa.Value, depth int) bool {
+		if depth > 6 {
+			return false
+		}
+		r, deref := rootD(v)
+		if benignKind(rootKind(r)) {
+			return true
+		}
+		switch x := r.(type) {
+		case *ssa.Parameter:
+			if ix := paramIndex(f, x); ix >= 0 {
+				return benignParam(f, ix, depth)
 			}
+		case *ssa.FreeVar:
+			parent := f.Parent()
+			if parent == nil {
+				return false
+			}
+			idx := -1
+			for k, fv := range f.FreeVars {
+				if fv == x {
+					idx = k
+				}
+			}
+			found := false
+			for _, b := range parent.Blocks {
+				for _, ins := range b.Instrs {
+					mc, ok := ins.(*ssa.MakeClosure)
+					if !ok || mc.Fn != ssa.Value(f) || idx < 0 || idx >= len(mc.Bindings) {
+						continue
+					}
+					found = true
+					slot := mc.Bindings[idx]
+					if !deref {
+						// the captured variable itself is written: that is the enclosing function's own variable
+						if !benignRoot(parent, slot, depth+1) {
+							return false
+						}
+						continue
+					}
+					// a reference held in the captured variable is followed: everything ever stored into the slot must be benign
+					al, ok := slot.(*ssa.Alloc)
+					if !ok {
+						if !benignRoot(parent, slot, depth+1) {
+							return false
+						}
+						continue
+					}
+					if al.Referrers() != nil {
+						for _, ref := range *al.Referrers() {
+							if st, ok := ref.(*ssa.Store); ok && st.Addr == ssa.Value(al) && pointerLike(st.Val.Type()) {
+								if !benignRoot(parent, st.Val, depth+1) {
+									return false
+								}
+							}
+						}
+					}
+				}
+			}
+			return found
 		}
 		return false
 	}
+	benignRootFn = benignRoot
+	rootedAtBenignParam := func(f *ssa.Function, v ssa.Value) bool { return benignRoot(f, v, 0) }
 	// --- collect sites
 	for _, f := range a.fns {
 		if len(f.Blocks) == 0 {
@@ -1072,6 +1183,9 @@ func analyse(cfgName string, env []string, patterns []string, wantPkgs map[strin
 		next := func(kind string) int { ord[kind]++; return ord[kind] }
 		fn := fnName(f)
 		libFn := f.Pkg != nil && f.Pkg.Pkg.Path() == "github.com/ja7ad/otp" || (f.Parent() != nil && strings.HasPrefix(fn, "otp."))
+		if libFn && initOnly(f, 0) {
+			libFn = false // package-initialisation code: see initOnly
+		}
 		usesPool := false
 		var poolOps []string
 		for _, b := range f.Blocks {
@@ -1148,6 +1262,14 @@ func analyse(cfgName string, env []string, patterns []string, wantPkgs map[strin
 						panics = appendPanic(panics, ins, site{cfg: cfgName, fn: fn, kind: "typeassert", ord: next("typeassert"), expr: exprText(x.X) + ".(" + x.AssertedType.String() + ")"})
 					}
 				case *ssa.Panic:
+					if c, ok := x.X.(*ssa.MakeInterface); ok {
+						if k, ok := c.X.(*ssa.Const); ok && k.Value != nil && k.Value.Kind() == constant.String {
+							msg := constant.StringVal(k.Value)
+							if strings.HasPrefix(msg, "iterator call did not preserve panic") || strings.HasPrefix(msg, "yield function called after range loop exit") {
+								continue // checks the compiler adds around range-over-func loops, not library code
+							}
+						}
+					}
 					if libFn {
 						panics = appendPanic(panics, ins, site{cfg: cfgName, fn: fn, kind: "panic", ord: next("panic"), expr: exprText(x.X)})
 					}
@@ -1165,7 +1287,7 @@ func analyse(cfgName string, env []string, patterns []string, wantPkgs map[strin
 				case *ssa.MapUpdate:
 					r := root(x.Map)
 					k := rootKind(r)
-					if !isInit && k != "local" && k != "fresh" {
+					if !isInit && k != "local" && k != "fresh" && !rootedAtBenignParam(f, x.Map) {
 						stores = append(stores, site{cfg: cfgName, fn: fn, kind: "mapupdate " + k, ord: next("store"), expr: exprText(x.Map)})
 					}
 				case *ssa.Return:
